@@ -36,8 +36,8 @@ def universal(text: str) -> str:
 class C20:
     PROPERTY = 'C20'
     TIERS = {
-        'quick': {'runs': 4500, 'wall_cap_s': 300, 'chunk': 10},
-        'thorough': {'runs': 110000, 'wall_cap_s': 1500, 'chunk': 20},
+        'quick': {'runs': 4500, 'wall_cap_s': 300, 'chunk': 30},
+        'thorough': {'runs': 110000, 'wall_cap_s': 1500, 'chunk': 40},
     }
     RULE = ('a simulated file tree (<=8 input files in nested directories; LF/CRLF/mixed/CR line ends, final newline or not, BOM, '
             'non-ASCII lyrics, suffixes .krn .kern .ekrn .ekern .txt, names with several dots) and <=10 seeded operations: load (str/Path, '
@@ -63,7 +63,7 @@ class C20:
               'fault_eintr_write', 'actor_mkdir_race', 'target_preexisting_truncated', 'dir_mode_one_input_failed', 'dir_mode_nested_skipped_without_r',
               'listing_order_non_sorted', 'locale_cannot_encode', 'relative_path_via_virtual_cwd', 'roundtrip_checked', 'actor_unlink',
               'interrupt_delivered', 'load_equal_checked', 'dump_equal_checked', 'converter_equal_checked', 'bom_input', 'crlf_input',
-              'flipped_byte_input', 'rerun_after_fault_exact']
+              'flipped_byte_input', 'rerun_after_fault_exact', 'edited_in_place_same_size']
 
     # ================================================================ plan
     def gen_plan(self, seed, index, tier):
@@ -85,7 +85,8 @@ class C20:
                 d = docgen.gen_doc(drng, F, max_spines=3, max_rows=14)
             docs.append(d.to_json())
         fsplan = {'io_seed': erng.randrange(1 << 30), 'chunking': erng.choice(['whole', 'tiny', 'small', 'mixed', 'mixed']),
-                  'locale': erng.choice(LOCALES), 'shuffle_listing': erng.random() < 0.8, 'faults': [], 'actor': []}
+                  'locale': erng.choice(LOCALES), 'shuffle_listing': erng.random() < 0.8, 'faults': [], 'actor': [],
+                  'mtime': erng.choice(['frozen', 'frozen', 'ticking'])}
         cwd = erng.choice([WORK, WORK, WORK + '/in', PREFIX])
         ops = []
         inputs = []     # (path, kind, doc index)
@@ -126,6 +127,10 @@ class C20:
                 p = rng.choice(inputs)[0] if rng.random() < 0.93 else posixpath.join(WORK, 'missing.krn')
                 ops.append({'op': 'load', 'path': as_given(p), 'pathtype': rng.choice(['str', 'Path']), 'raise_on_errors': rng.random() < 0.25,
                             'deprecated_api': rng.random() < 0.15})
+                if rng.random() < 0.3 and p.startswith(WORK):
+                    # the user edits a note of the file in place (same byte length, possibly within the same second) and loads it again
+                    ops.append({'op': 'edit', 'path': p, 'u': rng.randrange(1 << 20)})
+                    ops.append(dict(ops[-2]))
             elif kind == 'dump':
                 tdir = rng.choice(['out', 'out/new', 'out/a/b/c', 'in', '', 'in/sub'])
                 target = posixpath.join(WORK, tdir, rng.choice(['o', 'res', 'x.y']) + rng.choice(['.krn', '.ekrn', '.txt']))
@@ -429,6 +434,24 @@ class C20:
                 if kind == 'put':
                     fs.put(op['path'], render_bytes(op))
                     log.emit('user', 'put', op['path'], digest_of(fs.get(op['path'])))
+                    continue
+                if kind == 'edit':
+                    data = fs.get(op['path'])
+                    if data:
+                        # rotate one pitch letter of a data line: same size, different content
+                        lines = data.split(b'\n')
+                        cand = []
+                        off = 0
+                        for ln in lines:
+                            if ln and ln[:1] not in (b'*', b'!', b'='):
+                                cand.extend(off + i for i, ch in enumerate(ln) if ch in b'cdefgab')
+                            off += len(ln) + 1
+                        if cand:
+                            pos = cand[op['u'] % len(cand)]
+                            nxt = b'cdefgabc'[b'cdefgab'.index(data[pos:pos + 1]) + 1]
+                            fs.put(op['path'], data[:pos] + bytes([nxt]) + data[pos + 1:])
+                            bump(probes, 'edited_in_place_same_size')
+                    log.emit('user', 'edit', op['path'], digest_of(fs.get(op['path'])))
                     continue
                 if kind == 'put_ekern':
                     d = docs[op['doc'] % len(docs)]
